@@ -209,6 +209,27 @@ def fresh_replay(path):
     return p.returncode == 1, p.stdout.decode('utf-8', 'replace')
 
 
+def _json_safe(obj):
+    """Evidence must be strict JSON: samples of generated requests may hold
+    lone surrogates and non-finite floats (replay files keep the real
+    values; they are read back by Python)."""
+    import math
+    if isinstance(obj, dict):
+        return {_json_safe(k) if isinstance(k, str) else k: _json_safe(v)
+                for k, v in obj.items()}
+    if isinstance(obj, (list, tuple)):
+        return [_json_safe(v) for v in obj]
+    if isinstance(obj, float) and not math.isfinite(obj):
+        return '<float %r>' % obj
+    if isinstance(obj, str):
+        try:
+            obj.encode('utf-8')
+        except UnicodeEncodeError:
+            return ''.join(c if not 0xD800 <= ord(c) <= 0xDFFF
+                           else '<U+%04X>' % ord(c) for c in obj)
+    return obj
+
+
 def _safe_stdout():
     try:
         sys.stdout.reconfigure(errors='backslashreplace')
@@ -340,7 +361,8 @@ def main(argv=None):
         evdir = tempfile.mkdtemp(prefix='psim-mutant-evidence-')
     os.makedirs(evdir, exist_ok=True)
     with open(os.path.join(evdir, '%s.json' % prop), 'w') as fh:
-        json.dump(agg.evidence(), fh, indent=1, sort_keys=True, default=str)
+        json.dump(_json_safe(agg.evidence()), fh, indent=1, sort_keys=True,
+                  default=str, allow_nan=False)
     if harness_errors:
         print('HARNESS ERROR (%d):' % len(harness_errors))
         print(harness_errors[0][-3000:])
